@@ -103,6 +103,13 @@ def run(ctx):
             else:
                 r.bad("method|" + m, "SearchWorker::%s no longer delegates to %s" % (m, free), fn=g, construct="entry")
 
+    from . import c17
+    with ctx.rule("C02.TRANSCODE", "a slice/mmap is detoured through the reader exactly when the reader would transcode (shared with C17.NEEDS)",
+                  floor=2, exhaustive=True, kind="TRUTH/TABLE") as r:
+        c17.needs_rule(ctx, r)
+    with ctx.rule("C02.PRED", "the strategy predicate multi_line_with_matcher (shared with C13.PRED)", floor=5, exhaustive=True,
+                  kind="A3/TABLE") as r:
+        c13.mlpred_rule(ctx, r)
     with ctx.rule("C02.ROLL", "Core::roll rebases every cursor; consume uses roll's result", floor=8, kind="RW/ORDER/FLOW") as r:
         f = facts.fn(CORE + "::roll")
         eb = ExprBuilder(f)
@@ -133,6 +140,21 @@ def run(ctx):
         else:
             r.bad("consumed", "roll's result is `%s`: context lines still needed may be discarded (expected "
                   "max(preceding(..), last_line_visited))" % show(ret)[:160], fn=f, construct="consumed")
+        # how many trailing lines are retained: preceding(buf, term, config.max_context()), with
+        # max_context = max(before_context, after_context) — the line *before* the window is needed for the separator decision
+        pc = f.calls_to("grep_searcher::lines::preceding")
+        if pc and is_call(strip(eb.operand(pc[0].args[2])), SCFG + "::max_context") and \
+                any(x.k == "arg" and x[2] == "buf" for x in walk(eb.operand(pc[0].args[0]))):
+            r.ok("retain", "retained lines = preceding(buf, term, config.max_context())", fn=f)
+        else:
+            r.bad("retain", "roll retains `%s` trailing lines instead of config.max_context(): context or a separator can be lost at "
+                  "a buffer refill" % (show(eb.operand(pc[0].args[2]))[:60] if pc else "?"), fn=f, construct="retain")
+        mcx = facts.fn(SCFG + "::max_context")
+        em = ExprBuilder(mcx).local(0)
+        if is_call(strip(em), "core::cmp::max") and mentions_field(em, SCFG, "before_context") and mentions_field(em, SCFG, "after_context"):
+            r.ok("max_context", "max_context = max(before_context, after_context)", fn=mcx)
+        else:
+            r.bad("max_context", "Config::max_context is `%s`" % show(em)[:60], fn=mcx, construct="max_context")
         mc = cond_switches(f, lambda e: e.k == "bin" and e[1] == "Eq" and mentions_call(e, SCFG + "::max_context"), eb)
         if mc:
             r.ok("consumed|gate", "whole buffer consumed only when no context is configured", fn=f)
@@ -162,8 +184,8 @@ def run(ctx):
                 r.bad("fill|consume", "ReadByLine::fill does not consume exactly what Core::roll returned before refilling", fn=g,
                       construct="consume")
 
-    with ctx.rule("C02.REFILL", "LineBuffer::fill: roll, ensure capacity before every read, EOF marks the tail complete",
-                  floor=5, kind="DOM") as r:
+    with ctx.rule("C02.REFILL", "LineBuffer::fill: roll, ensure capacity before every read, EOF marks the tail complete; roll/consume write sets",
+                  floor=9, kind="DOM/RW") as r:
         f = facts.fn(LB + "::fill")
         eb = ExprBuilder(f)
         reads = f.calls_to("std::io::Read::read")
@@ -217,6 +239,69 @@ def run(ctx):
                     r.ok("eof", "EOF ⇒ last_lineterm = end, return", fn=f)
                 else:
                     r.bad("eof", "at end of input the unterminated tail is not exposed as a final line", fn=f, construct="eof")
+        # roll: both branches reposition the three window cursors; the non-empty branch moves the bytes
+        rl = facts.fn(LB + "::roll")
+        ebr = ExprBuilder(rl)
+        emp = cond_switches(rl, lambda e: e.k == "bin" and e[1] == "Eq" and mentions_field(e, LB, "pos") and mentions_field(e, LB, "end"), ebr)
+        if emp:
+            okb = True
+            det = []
+            for lbl, edge in (("empty", emp[0][1]), ("rolling", emp[0][2])):
+                reg = C.reach(rl, [edge[1]])
+                other = C.reach(rl, [(emp[0][2] if lbl == "empty" else emp[0][1])[1]])
+                w = set()
+                for bb, j, st in rl.stmts():
+                    if bb in reg and st["k"] == "assign":
+                        w |= {fl for o, fl in fields_of_place(st["place"]) if o == LB}
+                cw = any(c.bb in reg and c.bb not in other and c.path.endswith("copy_within") for c in rl.calls())
+                if not {"pos", "last_lineterm", "end"} <= w or (lbl == "rolling" and not cw):
+                    okb = False
+                    det.append("%s branch writes %s%s" % (lbl, sorted(w), "" if lbl == "empty" or cw else ", no copy_within"))
+            if okb:
+                r.ok("lb-roll", "both branches reset pos/last_lineterm/end; the non-empty one moves the bytes with copy_within", fn=rl)
+            else:
+                r.bad("lb-roll", "LineBuffer::roll: %s" % "; ".join(det), fn=rl, construct="roll")
+        else:
+            r.bad("lb-roll", "anchor-missing: LineBuffer::roll no longer distinguishes pos == end", fn=rl)
+        cs_ = facts.fn(LB + "::consume")
+        ebc = ExprBuilder(cs_)
+        wv = {}
+        for bb, j, st in cs_.stmts():
+            if st["k"] == "assign":
+                for o, fl in fields_of_place(st["place"]):
+                    if o == LB:
+                        wv[fl] = ebc.rvalue(st["rv"])
+        okc = all(fl in wv and any(x.k == "arg" and x[2] == "amt" for x in walk(wv[fl])) and
+                  any(x.k == "bin" and x[1] in ("Add", "AddWithOverflow") for x in walk(wv[fl])) for fl in ("pos", "absolute_byte_offset"))
+        if okc:
+            r.ok("lb-consume", "consume advances pos and absolute_byte_offset by the same amount", fn=cs_)
+        else:
+            r.bad("lb-consume", "LineBuffer::consume no longer advances both pos and absolute_byte_offset by amt", fn=cs_, construct="consume")
+        rc = facts.fn(LBR + "::consume")
+        if rc.calls_to(LB + "::consume"):
+            r.ok("lbr-consume", "LineBufferReader::consume forwards", fn=rc, nontrivial=False)
+        else:
+            r.bad("lbr-consume", "LineBufferReader::consume does not consume from the buffer", fn=rc, construct="consume")
+        fl_ = facts.fn(LB + "::fill")
+        ebf = ExprBuilder(fl_)
+        # after a read: end += readlen; a found terminator sets last_lineterm = oldend + i + 1 and returns true
+        we = [ebf.rvalue(st["rv"]) for bb, j, st in fl_.stmts() if st["k"] == "assign" and (LB, "end") in fields_of_place(st["place"])]
+        grow = [e for e in we if mentions_call(e, "std::io::Read::read") and any(x.k == "bin" and x[1] in ("Add", "AddWithOverflow") for x in walk(e))]
+        rf = [c for c in fl_.calls() if c.path.endswith("ByteSlice::rfind_byte")]
+        wl = [ebf.rvalue(st["rv"]) for bb, j, st in fl_.stmts() if st["k"] == "assign" and (LB, "last_lineterm") in fields_of_place(st["place"])]
+        lt_ok = any(mentions_call(e, "bstr::ext_slice::ByteSlice::rfind_byte") and
+                    any(x.k == "bin" and x[1] in ("Add", "AddWithOverflow") and any(y.k == "const" and y[1] == 1 for y in (x[2], x[3])) for x in walk(e))
+                    for e in wl)
+        if grow and rf and lt_ok and mentions_field(ebf.operand(rf[0].args[1]), "grep_searcher::line_buffer::Config", "lineterm"):
+            s1 = seed_after_call(fl_, rf[0], V("Some", None))
+            vals = {x for v in s1.ret_values.values() for x in value_set(v)}
+            if vals == {V("Ok", I(1))}:
+                r.ok("lb-fill-window", "end grows by the bytes read; last complete line = last terminator + 1; then Ok(true)", fn=fl_)
+            else:
+                r.bad("lb-fill-window", "after finding a terminator fill returns %s" % vals, fn=fl_, construct="fill")
+        else:
+            r.bad("lb-fill-window", "LineBuffer::fill no longer maintains end / last_lineterm from the bytes read and the last terminator", fn=fl_,
+                  construct="fill")
         g = facts.fn(LBR + "::new")
         if g.calls_to(LB + "::clear"):
             r.ok("reader|clear", "LineBufferReader::new clears the shared buffer", fn=g)
